@@ -85,6 +85,7 @@ def run(tier, replay_path=None):
                    "row order is compared only under ORDER BY and ties are the engine's choice"],
                   per_record=per_record, extra_cov=cov, grammar=True)
     if stats["ref_invalid"] and rc == 0:
+        for ref, msg in stats["ref_invalid"][:5]: log("  rejected reference: %s | %s" % (ref[:300], msg))
         print("TOOL-ERROR: %d reference renderings were rejected by the engine" % len(stats["ref_invalid"]))
         return 2
     return rc
